@@ -122,6 +122,8 @@ type Exec struct {
 	onceDone    map[*Value]bool
 	curStack    string
 	chanSeq     int
+	pendingGo   []pendingGo // goroutines started but not yet run (deferred-goroutine model)
+	goDepth     int
 	// statistics
 	Feasibility int
 	AssertQ     int
@@ -215,6 +217,8 @@ func (ex *Exec) resetPath(item WorkItem) {
 	ex.multi = map[*Term]bool{}
 	ex.anyMulti = false
 	ex.chanSeq = 0
+	ex.pendingGo = nil
+	ex.goDepth = 0
 	ex.expectPanic = false
 }
 
